@@ -100,10 +100,10 @@ func init() {
 	register("safe.cycoam", func(a []string) {
 		n := ai(a, 1)
 		h, k := uint64(7), 0
-		prev := oamString()
+		prev := sm.oam.VBytes()
 		for t := 1; t <= n; t++ {
 			sm.fullCycle()
-			now := oamString()
+			now := sm.oam.VBytes()
 			if now != prev {
 				k++
 				h = ((h * 1000003) ^ uint64(t)) & 0xFFFFFFFFFF
